@@ -96,7 +96,7 @@ class _G:
         elif r >= 8:
             node["default"] = {"t": "node", "n": self.opt(hashable) if self.chance(0.7) else self.leaf(hashable)}
         if self.p["domains"] and self.chance(self.p.get("domain_rate", 0.025)):
-            d = self.draw(st.integers(0, 2))
+            d = self.draw(st.integers(0, 1 if self.p.get("picklable") else 2))
             if d == 0:
                 node["domain"] = {"t": "container", "v": self.draw(st.lists(st.sampled_from(U.HASHABLE_DISPATCH), min_size=1, max_size=5))}
             elif d == 1:
@@ -237,7 +237,7 @@ class _G:
                 else:
                     it = {"k": "list", "items": [self.node(0, hashable=True) for _ in range(self.draw(st.integers(0, 2)))]}
                 iters.append([key, it])
-            how = self.pick(["list", "values_list"] + (["raw", "values_raw"] if lazy_ok else []))
+            how = self.pick((["list"] if self.p.get("picklable") else ["list", "values_list"]) + (["raw", "values_raw"] if lazy_ok else []))
             return {"k": "map", "body": self.node(d), "iters": iters, "as": how}
         if k == "with":
             return {"k": "with", "body": self.node(d, hashable), "opts": self.small_opts(), "force": self.chance(0.5)}
